@@ -28,6 +28,12 @@ pub struct RtCase {
     /// read schedule of the raw-copy source archives' reader (short reads are legal: the copy must not depend on them)
     #[serde(default)]
     pub src_read: Option<Policy>,
+    /// steer ONE structure of the finished archive (0 end record, 1 directory start, 2 last local header, 3 last
+    /// data start, 4 ZIP64 end record if any) onto a block boundary: the program is executed once to learn where
+    /// that structure lands, then the sink is pre-positioned so that it lands at m * 2^j - d. Readers and writers
+    /// that work in blocks of any power-of-two size meet their block edges inside a record only for such positions.
+    #[serde(default)]
+    pub steer: Option<(u8, u8, i8)>,
 }
 
 #[derive(Clone, Copy, PartialEq, Eq, Debug)]
@@ -433,6 +439,19 @@ impl Scenario for Roundtrip {
                         ops.retain(|o| matches!(o, Op::RawCopy { .. }));
                         ops.truncate(1);
                     }
+                    {
+                        // a raw copy the writer has to refuse (its new name does not fit the 16-bit length field) in
+                        // front of the real ones: whatever the refused call had already fetched or prepared must not
+                        // turn up in a later copy
+                        let mut rr = Rng::derive(s, "refused-raw-copy");
+                        if rr.chance(1, 8) {
+                            let src = rr.usize_below(sources.len());
+                            if src_lens[src] > 0 {
+                                let at = ops.iter().position(|o| matches!(o, Op::RawCopy { .. })).unwrap_or(ops.len());
+                                ops.insert(at, Op::RawCopy { src, how: rr.below(3) as u8, index: rr.usize_below(src_lens[src]), rename: Some("n".repeat(65536 + rr.below(10) as usize)) });
+                            }
+                        }
+                    }
                     if r.chance(1, 10) {
                         ops.push(Op::SetComment { c: Hex(vec![b'c'; 65536]) });
                         ops.push(Op::Finish);
@@ -682,7 +701,14 @@ impl Scenario for Roundtrip {
             ops.push(r.pick(&[Op::Finish, Op::Flush, Op::EndExtra, Op::Write { c: Content::Lit(Hex(b"z".to_vec())), split: vec![] }, Op::StartFile { name: "late".into(), o: Opts::default() }]).clone());
         }
         let huge = ops.iter().any(|o| matches!(o, Op::Write { c, .. } if c.is_sparse()) || matches!(o, Op::Many { .. }));
-        let mut case = RtCase { ops, sources, sink: gen_policy_short(&mut rio), read: gen_policy_short(&mut rio), bufs: gen_bufs(&mut rio), start_pos, base, src_read: None };
+        let mut case = RtCase { ops, sources, sink: gen_policy_short(&mut rio), read: gen_policy_short(&mut rio), bufs: gen_bufs(&mut rio), start_pos, base, src_read: None, steer: None };
+        {
+            let mut rt = Rng::derive(s, "steer");
+            if !huge && case.base.is_none() && self.mode != Mode::C08 && rt.chance(1, 6) {
+                case.steer = Some((rt.below(5) as u8, rt.range(9, 16) as u8, rt.range(0, 6) as i8 - 2));
+                case.start_pos = 0;
+            }
+        }
         if !case.sources.is_empty() && Rng::derive(s, "src-io").chance(2, 3) {
             case.src_read = Some(gen_policy_short(&mut Rng::derive(s, "src-io2")));
         }
@@ -702,6 +728,30 @@ impl Scenario for Roundtrip {
         };
         let prop = ctx.property.clone();
         let (src_stores, src_infos, _) = sources_to_stores(&c.sources);
+        let mut c = c;
+        if let (Some((which, j, d)), None) = (c.steer, &c.base) {
+            let huge = c.ops.iter().any(|o| matches!(o, Op::Write { c, .. } if c.is_sparse()) || matches!(o, Op::Many { .. }));
+            if !huge {
+                let st = shared_empty();
+                let _ = exec_full(st.clone(), false, &c.ops, &src_stores, &Policy::Pure, &Policy::Pure, 0, true);
+                let _ = take_panic();
+                let img = image_of(&st);
+                if let Ok(p) = crate::indep::parse(&img) {
+                    let last = p.locals.iter().filter_map(|l| l.as_ref().ok()).max_by_key(|l| l.pos);
+                    let pos = match which {
+                        1 => p.cd_start,
+                        2 => last.map(|l| l.pos).unwrap_or(p.eocd_pos),
+                        3 => last.map(|l| l.data_start).unwrap_or(p.eocd_pos),
+                        4 => p.z64.as_ref().map(|z| z.rec_pos).unwrap_or(p.eocd_pos),
+                        _ => p.eocd_pos,
+                    };
+                    let block = 1u64 << j.clamp(6, 16);
+                    let want = (pos as i64 + d as i64).rem_euclid(block as i64) as u64; // (start + pos) % block == -d
+                    c.start_pos = (block - want) % block + if j >= 12 && (pos & 1) == 1 { 1 << 16 } else { 0 };
+                    ctx.probe("structure_steered_onto_a_block_boundary");
+                }
+            }
+        }
         let base_img: Option<Shared> = c.base.as_ref().map(|b| b.store());
         let mk_store = || match &base_img {
             Some(b) => std::sync::Arc::new(std::sync::Mutex::new(b.lock().unwrap_or_else(|e| e.into_inner()).clone())),
@@ -947,6 +997,9 @@ impl Scenario for Roundtrip {
         }
         if c.start_pos != 0 {
             out.push(RtCase { start_pos: 0, ..c.clone() });
+        }
+        if c.steer.is_some() {
+            out.push(RtCase { steer: None, ..c.clone() });
         }
         for ops in shrink_ops(&c.ops) {
             if c.base.is_some() && !matches!(ops.first(), Some(Op::Append)) {
